@@ -362,7 +362,31 @@ func c01R2(c *Ctx) {
 
 	// verifyDNSSEC: true only after DS→KSK and RRSIG verification (or the root check)
 	retTrue := isReturnWith(0, func(e *Expr) bool { return !IsConstBool(false)(e) })
-	c.MustCross(R, vdFn, "VerifyRRSIGWithWork", isPlainCallTo(verifyRRSIG), OnFalse("VerifyDSWithWork err", ResultOf(1, verifyDS)))
+	// the DS→DNSKEY link: any exported dnssec function that is handed the DS set and reports an error
+	// (VerifyDSWithWork; a variant that also returns the matched keys counts the same)
+	dsLinkErr := func(e *Expr) bool {
+		e = strip(e)
+		if e == nil {
+			return false
+		}
+		if e.K == EPhi || e.K == EAlloc {
+			if len(e.Args) == 0 {
+				return false
+			}
+			for _, a := range e.Args {
+				sa := strip(a)
+				if sa == nil || sa.K != EExtract || sa.X == nil || sa.X.K != ECall {
+					return false
+				}
+				if !c01IsDSLink(sa.X, sa.Idx) {
+					return false
+				}
+			}
+			return true
+		}
+		return e.K == EExtract && e.X != nil && e.X.K == ECall && c01IsDSLink(e.X, e.Idx)
+	}
+	c.MustCross(R, vdFn, "VerifyRRSIGWithWork", isPlainCallTo(verifyRRSIG), OnFalse("VerifyDSWithWork err", dsLinkErr))
 	c.MustCross(R, vdFn, "return ok!=false", func(in ssa.Instruction) bool {
 		if !retTrue(in) {
 			return false
@@ -514,7 +538,7 @@ func c01R4(c *Ctx) {
 			if !ok || !fo.Exported() {
 				continue
 			}
-			if !(strings.HasPrefix(n, "Verify") || n == "ValidateSigner" || n == "DNSKEYToDSWithWork") {
+			if !(strings.HasPrefix(n, "Verify") || strings.HasPrefix(n, "Match") || n == "ValidateSigner" || n == "DNSKEYToDSWithWork") {
 				continue
 			}
 			res := fo.Type().(*types.Signature).Results()
@@ -548,8 +572,33 @@ func c01R4(c *Ctx) {
 		if callee == isZoneSecure && retryLoops[fn] {
 			out = append(out, provenEdge) // missing signatures accepted only under a proven insecure delegation
 		}
-		if fn == "(*middleware/resolver.Resolver).verifyDNSSEC" && callee == verifyDS {
-			out = append(out, OnTrue("unsupportedOnly (RFC 6840 §5.2: ok=false can only clear AD)", ResultOf(0, verifyDS)))
+		if fn == "(*middleware/resolver.Resolver).verifyDNSSEC" && (callee == verifyDS || c01IsDSLinkFunc(callee)) {
+			// the bool verdict of the DS link (of whichever variant was called; merged by a phi when there are two)
+			var unsup func(e *Expr, d int) bool
+			unsup = func(e *Expr, d int) bool {
+				e = strip(e)
+				if e == nil || d > 2 {
+					return false
+				}
+				if (e.K == EPhi || e.K == EAlloc) && len(e.Args) > 0 {
+					for _, a := range e.Args {
+						if !unsup(a, d+1) {
+							return false
+						}
+					}
+					return true
+				}
+				if e.K == EConst {
+					return d > 0 // the zero value merged in on the other branch
+				}
+				if e.K != EExtract || e.X == nil || e.X.K != ECall || e.X.Fn == nil || !c01IsDSLinkFunc(e.X.Fn) {
+					return false
+				}
+				sig := e.X.Fn.Type().(*types.Signature)
+				b, ok := sig.Results().At(e.Idx).Type().Underlying().(*types.Basic)
+				return ok && b.Kind() == types.Bool
+			}
+			out = append(out, OnTrue("unsupportedOnly (RFC 6840 §5.2: ok=false can only clear AD)", func(e *Expr) bool { return unsup(e, 0) }))
 		}
 		if fn == "middleware/resolver.verifyFetchedKeysWithWork" && callee == verifyRRSIG {
 			out = append(out, OnTrue("a later pass's own verified=true verdict (RFC 5011 two-pass check, C09)", ResultOf(0, verifyRRSIG)))
@@ -1079,4 +1128,36 @@ func c01R8(c *Ctx) {
 		c.ok(R, R+"|resolve|no direct success return", resolve.Pos(), "every success return of resolve is a validator's or a recursive call's result")
 	}
 	c.Floor(R, 12)
+}
+
+// c01IsDSLink: call is an exported function of the dnssec package whose name mentions DS, that takes a
+// []dns.RR (the parent DS set) and whose result #idx is its trailing error.
+func c01IsDSLink(call *Expr, idx int) bool {
+	fo := call.Fn
+	if fo == nil || fo.Pkg() == nil || !strings.HasSuffix(fo.Pkg().Path(), "/resolver/dnssec") || !fo.Exported() || !strings.Contains(fo.Name(), "DS") {
+		return false
+	}
+	sig, _ := fo.Type().(*types.Signature)
+	if sig == nil || sig.Results().Len() == 0 || idx != sig.Results().Len()-1 || !c01IsErrorType(sig.Results().At(idx).Type()) {
+		return false
+	}
+	for i := 0; i < sig.Params().Len(); i++ {
+		if sl, ok := sig.Params().At(i).Type().Underlying().(*types.Slice); ok {
+			if n, ok := sl.Elem().(*types.Named); ok && n.Obj().Name() == "RR" {
+				return true
+			}
+		}
+	}
+	return false
+}
+
+func c01IsDSLinkFunc(fo *types.Func) bool {
+	if fo == nil {
+		return false
+	}
+	sig, _ := fo.Type().(*types.Signature)
+	if sig == nil || sig.Results().Len() == 0 {
+		return false
+	}
+	return c01IsDSLink(&Expr{K: ECall, Fn: fo}, sig.Results().Len()-1)
 }
